@@ -37,8 +37,8 @@ def precession_apply (start_ra start_dec zeta z theta : Num) : PyRes (Num × Num
             + pcos (a_rad theta) * psin (a_rad start_dec)
   -- final_ra = atan2(a, b) + z.rad()
   let final_ra := patan2 a b + a_rad z
-  -- if start_dec > 85.0: final_dec = acos(sqrt(a * a + b * b))  else: final_dec = asin(c)
-  let final_dec ← if plt 85.0 start_dec then m_acos (psqrt (a * a + b * b)) else m_asin c
+  -- final_dec = atan2(c, sqrt(a * a + b * b))
+  let final_dec := patan2 c (psqrt (a * a + b * b))
   -- final_ra = Angle(final_ra, radians=True); final_dec = Angle(final_dec, radians=True)
   pure (a_of_rad final_ra, a_of_rad final_dec)
 
@@ -110,9 +110,10 @@ def precession_ecliptical (start_epoch final_epoch start_lon start_lat p_motion_
   -- c = cos(eta.rad()) * sin(start_lat.rad()) + sin(eta.rad()) * cos(start_lat.rad()) * sin(pie.rad() - start_lon.rad())
   let c := pcos (a_rad eta) * psin (a_rad start_lat)
             + psin (a_rad eta) * pcos (a_rad start_lat) * psin (a_rad pie - a_rad start_lon)
-  -- final_lon = p.rad() + pie.rad() - atan2(a, b); final_lat = asin(c)
+  -- final_lon = p.rad() + pie.rad() - atan2(a, b)
   let final_lon := a_rad p + a_rad pie - patan2 a b
-  let final_lat ← m_asin c
+  -- final_lat = atan2(c, sqrt(a * a + b * b))
+  let final_lat := patan2 c (psqrt (a * a + b * b))
   pure (a_of_rad final_lon, a_of_rad final_lat)
 
 /-- `p_motion_equa2eclip(p_motion_ra, p_motion_dec, ra, dec, lat, epsilon)` (Coordinates.py:689);
@@ -178,25 +179,22 @@ def orbital_equinox2equinox (epoch0 epoch i0 arg0 lon0 : Num) : PyRes (Num × Nu
   let etar := a_rad eta
   let lon0r := a_rad lon0
   let pir := a_rad pie
-  -- if i0 < 1.0: i1 = eta; lon1 = pie + p + 180.0
-  let il : Num × Num ←
-    if plt i0 1.0 then
-      pure (eta, a_add (a_add pie p) 180.0)
-    else do
-      -- a = sin(i0r) * sin(lon0r - pir); b = -sin(etar) * cos(i0r) + cos(etar) * sin(i0r) * cos(lon0r - pir)
-      let a := psin i0r * psin (lon0r - pir)
-      let b := -psin etar * pcos i0r + pcos etar * psin i0r * pcos (lon0r - pir)
-      -- i1 = asin(sqrt(a*a + b*b)); i1 = Angle(i1, radians=True)
-      let i1 ← m_asin (psqrt (a * a + b * b))
-      -- omegapsi = atan2(a, b); omegapsi = Angle(omegapsi, radians=True); lon1 = omegapsi + pie + p
-      let omegapsi := a_of_rad (patan2 a b)
-      pure (a_of_rad i1, a_add (a_add omegapsi pie) p)
+  -- a = sin(i0r) * sin(lon0r - pir); b = -sin(etar) * cos(i0r) + cos(etar) * sin(i0r) * cos(lon0r - pir)
+  let a := psin i0r * psin (lon0r - pir)
+  let b := -psin etar * pcos i0r + pcos etar * psin i0r * pcos (lon0r - pir)
+  -- c = cos(i0r) * cos(etar) + sin(i0r) * sin(etar) * cos(lon0r - pir)
+  let c := pcos i0r * pcos etar + psin i0r * psin etar * pcos (lon0r - pir)
+  -- i1 = atan2(sqrt(a*a + b*b), c); i1 = Angle(i1, radians=True)
+  let i1 := a_of_rad (patan2 (psqrt (a * a + b * b)) c)
+  -- omegapsi = atan2(a, b); omegapsi = Angle(omegapsi, radians=True); lon1 = omegapsi + pie + p
+  let omegapsi := a_of_rad (patan2 a b)
+  let lon1 := a_add (a_add omegapsi pie) p
   -- domega = atan2(-sin(etar) * sin(lon0r - pir), sin(i0r) * cos(etar) - cos(i0r) * sin(etar) * cos(lon0r - pir))
   let domega := patan2 (-psin etar * psin (lon0r - pir))
                   (psin i0r * pcos etar - pcos i0r * psin etar * pcos (lon0r - pir))
   -- domega = Angle(domega, radians=True); arg1 = arg0 + domega
   let arg1 := a_add arg0 (a_of_rad domega)
-  pure (il.1, arg1, il.2)
+  pure (i1, arg1, lon1)
 
 end Coords
 end Pymeeus.Gen@K@
